@@ -69,7 +69,7 @@ K_F5 = 'C20-F5-ControlProblemWithCounters-eval_h-unconditional'
 K_F6 = 'C20-F6-ocp-absent-null-vtable-entry-crashes'
 K_F7 = 'C20-F7-abi-eval_proj_multipliers-no-default'
 K_F8 = 'C20-F8-DLControlProblem-lacks-required-projections'
-K_F9 = 'C20-F9-DLControlProblem-no-provides_eval_h'
+K_F9 = 'C20-F9-DLControlProblem-no-provides_eval_h'   # fixed (kept for the ledger; no monitor returns it)
 
 # what the property demands of the loader for each plug-in variant the check builds
 LOAD_EXPECT = {
@@ -120,7 +120,7 @@ PROBES = [
     (3, True, None, 'control: NLP problem with eval_hess_ψ_prod and an eval_hess_ψ guarded by provides_eval_hess_ψ, '
                     'type-erased directly'),
     (4, True, K_F3, 'the same NLP problem wrapped in problem_with_counters'),
-    (5, True, K_F8, 'TypeErasedControlProblem over DLControlProblem'),
+    (5, True, None, 'TypeErasedControlProblem over DLControlProblem (the loader supplies every required member itself)'),
     (6, True, None, 'control: TypeErasedProblem over DLProblem and over problem_with_counters(DLProblem)'),
 ]
 
@@ -259,7 +259,7 @@ def gen_ops(rng, n_sessions, lists, thorough=False):
 
     def dlocp():
         file, reg = rng.choice([k for k in LOAD_EXPECT if k[1].startswith('c20_ocp')])
-        nh = rng.choice([0, 1, 2]); nc = rng.choice([0, 1])
+        nh = rng.choice([0, 1, 2]); nc = rng.choice([0, 1, 2])
         mask = rng.choice([(1 << 13) - 1, rng.getrandbits(13) | 0x281 if nc else rng.getrandbits(13)])
         # flags: which of the two optional output-mapping members the plug-in leaves null
         flags = rng.choice([0, 0, 0, 1, 2, 3])
@@ -279,11 +279,17 @@ def gen_ops(rng, n_sessions, lists, thorough=False):
     i, has, prov = ocps[0]
     ops += [f'new ocp {i} {has} {prov} 0 1 0', 'create', 'prov 0'] + [
         f'call 0 {f} {ocp_args(rng, 1, 0)}' for f in ('eval_f', 'eval_constr', 'get_D_N', 'eval_add_R_prod_masked', 'eval_h')]
-    # OCP plug-ins that omit eval_h / eval_h_N (optional in ControlProblemVTable): without outputs (nh = 0) and
-    # with outputs (nh = 1, where the documented answer is a constructor error)
+    # OCP plug-ins that omit eval_h / eval_h_N (optional in ControlProblemVTable): without outputs (nh = 0: reported
+    # as absent, calling them raises not_implemented_error) and with outputs (nh = 1: constructor error)
     for nh, fl in ((0, 1), (0, 2), (0, 3), (1, 3), (1, 1)):
         ops += [f'new dlocp ocp c20_ocp_register {(1 << 13) - 1} {nh} 0 {fl}', 'create', 'prov 0'] + [
             f'call 0 {f} {ocp_args(rng, nh, 0)}' for f in ('eval_h', 'eval_h_N', 'eval_f', 'eval_l_N')] + ['cnt 0']
+    # the loader's own projections (no C-ABI member): every combination of get_D / get_D_N present or not, with
+    # nc = 0 and (where the vtable constructor accepts it) nc > 0
+    for nc, mk in ((0, 0), (0, 1), (0, 2), (0, 3), (1, (1 << 13) - 1), (1, ((1 << 13) - 1) & ~2), (2, (1 << 13) - 1)):
+        ops += [f'new dlocp ocp c20_ocp_register {mk} 1 {nc} 0', 'create'] + [
+            f'call 0 {f} {ocp_args(rng, 1, nc)}' for f in ('eval_proj_diff_g', 'eval_proj_multipliers',
+                                                            'eval_proj_diff_g', 'eval_proj_multipliers')]
     i, has, prov = natives[1]
     a = nlp_args(rng, 2, 2)
     ops += [f'new native {i} {has} {prov} 0 2 2', 'create', 'copy 0', f'call 0 eval_f {a}', f'call 1 eval_f {a}',
@@ -426,11 +432,6 @@ def monitor(op, out, st):
                 if need:
                     exp = 'err:missing:' + need[0]
             if out != exp:
-                if kind == 'dlocp' and need and need[0] in ('eval_h', 'eval_h_N') and out.startswith('ok'):
-                    return (f'OCP plug-in with nh = {s["n"]} > 0 whose table omits {need[0]}: the documented answer is the '
-                            f'constructor error "missing \'{need[0]}\'", but TypeErasedControlProblem over DLControlProblem '
-                            f'is constructed ({out}): DLControlProblem has no provides_{need[0]}, the entry counts as provided',
-                            K_F9)
                 if (s['file'], s['reg']) == ('nlp', 'c20_badversion') and out == 'ok warned=1':
                     return ('ABI mismatch reported by <name>_version() is not a load failure: the plug-in loads '
                             f'({out}; the loader prints that the version function is missing)', K_F4)
@@ -511,10 +512,6 @@ def monitor(op, out, st):
                     if (s['prov_mask'] >> hp) & 1 and not (s['prov_mask'] >> h) & 1 and not (s['pv'] >> hp) & 1:
                         return ('counted wrapper reports eval_hess_ψ_prod as provided although the problem\'s '
                                 'provides_eval_hess_ψ_prod() returns false (problem has no provides_eval_hess_ψ)', K_F3)
-                if s['kind'] == 'dlocp' and diff and set(diff) <= set(omitted_h(s)):
-                    return (f'OCP plug-in whose table omits {diff}: the loader (and the counted wrapper around it) reports '
-                            f'them as provided ({head}), the plug-in\'s table says absent ({o}); DLControlProblem has no '
-                            f'provides_eval_h / provides_eval_h_N', K_F9)
                 if s['ocp'] and set(diff) <= {'eval_h', 'eval_h_N'}:
                     s['f5'] = True
                     return (f'counted OCP wrapper reports {diff} as provided although the problem\'s provides_ '
@@ -529,11 +526,6 @@ def monitor(op, out, st):
         W, D, R = r['W'], r.get('D'), r.get('R')
         msgs = []
         keyed = None
-        if s['kind'] == 'dlocp' and fn in omitted_h(s) and D is not None and D['st'] == 'crash':
-            return (f'OCP plug-in whose table omits {fn}: TypeErasedControlProblem over DLControlProblem reports it as '
-                    f'provided and calling it jumps through the null table member ({D["vals"]}; through the counting '
-                    f'wrapper: {W["st"]}); documented for an omitted optional function: not_implemented_error("{fn}")'
-                    + (f' (reference over the raw table: {R["st"]})' if R is not None else ''), K_F9)
         # (a) the loader / function-object class against the direct reference
         if R is not None and D is not None and (D['st'], D['log'], D['vals']) != (R['st'], R['log'], R['vals']):
             msgs.append(f'{s["kind"]}: {fn} through the loader/class gives ({D["st"]}, ran {D["log"]}, {D["vals"][:80]}), '
